@@ -108,3 +108,36 @@ fn c30_find_key_equals_reference() {
     let got = find_key_simd(&pg.0[..], probe, n);
     assert!(got == reference(&pg, n, probe));
 }
+
+//@ props=C30 kind=bounded bound="one AVX2 batch: exactly 8 slots, all sorted prefix vectors and targets" timeout=2400
+/// window invariant of the AVX2 narrowing on one batch of 8 sorted prefixes: with lb = first slot whose
+/// prefix >= target and ub = first slot whose prefix > target, the returned window satisfies
+/// left <= lb and ub <= right — i.e. no slot whose prefix equals the target, and not the insertion point,
+/// is cut off before the final key comparison
+#[cfg(target_arch = "x86_64")]
+#[kani::proof]
+#[kani::unwind(34)]
+fn c30_avx2_window_one_batch() {
+    let mut pg = [0u8; LEAF_CONTENT_START + 8 * SLOT_SIZE];
+    let p: [u32; 8] = kani::any();
+    let mut i = 0;
+    while i < 8 {
+        if i + 1 < 8 { kani::assume(p[i] <= p[i + 1]); }
+        let o = LEAF_CONTENT_START + i * SLOT_SIZE;
+        let b = p[i].to_be_bytes();
+        pg[o] = b[0]; pg[o + 1] = b[1]; pg[o + 2] = b[2]; pg[o + 3] = b[3];
+        i += 1;
+    }
+    let target: u32 = kani::any();
+    let (l, r, _m) = unsafe { simd_prefix_search_avx2(&pg[..], target, 8) };
+    let mut lb = 8usize;
+    let mut ub = 8usize;
+    let mut k = 8usize;
+    while k > 0 {
+        k -= 1;
+        if p[k] >= target { lb = k; }
+        if p[k] > target { ub = k; }
+    }
+    assert!(l <= lb);
+    assert!(ub <= r.min(8));
+}
